@@ -8,7 +8,7 @@
 //!                                                `generate_hash_key` relies on (kind = path | os | str)
 //!   args     ( argv files )                   -> parse result of the real `parse_arguments`
 //!   key      ( argv files depinfo env shlibs version filenames )
-//!                                             -> ( ok PREIMAGE-PREFIX tail_ok key_ok outputs ) | ( err ) | parse result
+//!                                             -> ( ok PREIMAGE-PREFIX tail_ok key_ok outputs pairs ) | ( err ) | parse result
 //!            the real `Rust::parse_arguments` + `RustHasher::generate_hash_key` with a mocked rustc; the
 //!            pre-image is what the real code fed to its `Digest` (hook util::VERIF_DIGEST_TRACE)
 //!   keypair  ( reqA reqB meta )               -> ( same_key resA resB )   two `key` requests in one working directory
@@ -336,6 +336,13 @@ fn key_in2(case: &Sx, scratch: &Scratch) -> (Sx, Option<String>) {
         res.compilation.outputs().map(|o| (o.key, o.path, o.optional)).collect();
     outs.sort();
     let key = res.key.clone();
+    // the (flag, value) pairs the request was parsed into (used to classify key collisions)
+    let pairs = match verif_parse_arguments(&argv, &cwd) {
+        CompilerArguments::Ok(p) => {
+            Sx::L(p.arguments.iter().map(|(a, v)| Sx::L(vec![sb(a), Sx::opt(v.as_ref().map(sb))])).collect())
+        }
+        _ => Sx::L(vec![]),
+    };
     (
         Sx::L(vec![
             Sx::sym("ok"),
@@ -347,6 +354,7 @@ fn key_in2(case: &Sx, scratch: &Scratch) -> (Sx, Option<String>) {
                     .map(|(k, p, o)| Sx::L(vec![Sx::B(k.as_bytes().to_vec()), virt(p, &cwd), Sx::bool(*o)]))
                     .collect(),
             ),
+            pairs,
         ]),
         Some(key),
     )
